@@ -158,7 +158,7 @@ impl Prop for C01 {
     fn assumptions() -> Vec<String> {
         vec![
             "chromosome names: non-empty, no TAB/LF/NUL/whitespace, <= 40 bytes; each chromosome is one contiguous run".into(),
-            "positions <= i32::MAX; values finite".into(),
+            "positions over the whole u32 range (one layout in seven starts near 2^31, at 3e9 or just below 2^32); values finite".into(),
             "manual zoom lists: mostly ascending and distinct, one in four in arbitrary order, possibly with a repeated size or a zero (a public option with no stated order)".into(),
             "a writer refusal of generated input is counted (label writer-refused), not judged: no listed property says valid input must be accepted".into(),
         ]
